@@ -800,7 +800,7 @@ class Selector(cssutils.util.Base2):
 
             elif (
                 typ == 'FUNCTION'
-                and val == 'not('
+                and val.lower() == 'not('
                 and tokens
                 and ':' == self._tokenvalue(tokens[-1])
             ):
